@@ -643,6 +643,19 @@ Proof.
            scD13_same_room scD1_tables_ok scD3_tables_ok scD1_diffuse scD3_diffuse scD1_wf scD3_wf);
     try reflexivity; try assumption.
 Qed.
+(** the read-entry form applies as well *)
+Example C03_diffuse_sampling_independent_vis_witness j d d' b t :
+  (j < 3)%nat -> (d < 1)%nat -> (d' < 3)%nat -> (b < 2)%nat -> (t < 16)%nat ->
+  get4 (patch_hist scD1 tmS srcQ 2) j d b t = get4 (patch_hist scD3 tmS srcQ 2) j d' b t.
+Proof.
+  intros Hj Hd Hd' Hb Ht.
+  apply (C03_diffuse_sampling_independent_vis scD1 scD3 rhoD tmS srcQ srcQ 2 j d d' b t scD13_same_room
+           (in_range_read_pairs scD1 rhoD scD1_tables_ok scD1_diffuse)
+           (in_range_read_pairs scD3 rhoD scD3_tables_ok scD3_diffuse)
+           (in_range_read_src scD1 srcQ rhoD scD1_tables_ok scD1_diffuse)
+           (in_range_read_src scD3 srcQ rhoD scD3_tables_ok scD3_diffuse) scD1_wf scD3_wf);
+    try reflexivity; try assumption.
+Qed.
 (** the histograms are not empty: bins with energy in band 1, slot 0 of [scD1] = every slot of [scD3] *)
 Example C03_bounded_histograms_nonzero :
   map (fun j => support (nthl (nthl (nthl (patch_hist scD1 tmS srcQ 2) j) 0) 1)) [0; 1; 2]%nat =
